@@ -1,5 +1,6 @@
 //! vfsx: runs case files against the real `vfs` crate (path dependency on /repo) and prints
 //! one canonical observation line per op, in the same format as the extracted Coq model.
+mod asyncrun;
 mod conc;
 mod fmt;
 mod wrappers;
@@ -331,6 +332,26 @@ pub fn run_op(c: &mut Case, idx: usize, toks: &[&str]) -> String {
                 _ => "err:MODEL-STUCK:U".to_string(),
             }
         }
+        // read until n bytes have arrived or the end is reached (chunking of single reads is not compared)
+        ["hreadn", r, n] => {
+            let n: usize = n.parse().unwrap();
+            match c.handles.get_mut(&r.parse::<usize>().unwrap()) {
+                Some(Handle::R(h)) => {
+                    let mut buf = vec![0u8; n];
+                    let mut got = 0;
+                    let mut res = Ok(());
+                    while got < n {
+                        match h.read(&mut buf[got..]) {
+                            Ok(0) => break,
+                            Ok(k) => got += k,
+                            Err(e) => { res = Err(e); break; }
+                        }
+                    }
+                    io_res_s(&res.map(|_| buf[..got].to_vec()), bytes_s)
+                }
+                _ => "err:MODEL-STUCK:U".to_string(),
+            }
+        }
         ["hseek", r, w, o] => {
             let sf = match *w {
                 "s" => SeekFrom::Start(o.parse::<u64>().unwrap()),
@@ -435,6 +456,10 @@ fn main() {
     let args: Vec<String> = std::env::args().collect();
     let mut file = None;
     let mut sort = true;
+    if args.len() > 2 && args[1] == "--async" {
+        asyncrun::main(&args[2], args.iter().any(|a| a == "--pending"));
+        return;
+    }
     if args.len() > 2 && args[1] == "--conc" {
         conc::main(&args[2]);
         return;
